@@ -71,6 +71,49 @@ exception(
 )
 
 
+_EFF_CACHE: dict[int, dict] = {}
+
+
+def _effective_edges(repo) -> dict[str, dict[str, tuple | None]]:
+    """ALLOWED_EDGES plus private pass-through helpers: a private function of the same module
+    whose every caller is one owner of unconditional allowed edges (or such a helper) is part
+    of that owner — the owner may call it, and it may call what the owner may call.  Splitting
+    an allowed function into private pieces does not widen who can reach storage."""
+    if id(repo) in _EFF_CACHE:
+        return _EFF_CACHE[id(repo)]
+    eff_edges = {k: dict(v) for k, v in ALLOWED_EDGES.items()}
+    callers: dict[str, set[str]] = {}
+    for d, c, ts in repo.all_call_sites():
+        if d is None:
+            continue
+        for t in ts:
+            if t.kind == "def" and t.ref.is_func:
+                callers.setdefault(t.ref.qual, set()).add(d.qual)
+    changed = True
+    while changed:
+        changed = False
+        for q, cs in callers.items():
+            h = repo.defs.get(q)
+            if h is None or not h.name.startswith("_") or h.name.startswith("__") or q in eff_edges:
+                continue
+            # (callers that are not owners are judged on their own edge to the helper: with
+            # their arguments bound it either carries a heavy effect — reported — or not)
+            owners = {c for c in cs if c in eff_edges and repo.defs.get(c) is not None and repo.defs[c].module is h.module}
+            if len(owners) >= 1:
+                inherited: dict[str, tuple | None] = {}
+                for o in owners:
+                    for callee, cond in eff_edges[o].items():
+                        if cond is None:
+                            inherited[callee] = None
+                if inherited:
+                    eff_edges[q] = inherited
+                    for o in owners:
+                        eff_edges[o][q] = None
+                    changed = True
+    _EFF_CACHE[id(repo)] = eff_edges
+    return eff_edges
+
+
 def _below_boundary(d: Def) -> bool:
     """Executors and code that only runs inside tasks are below the laziness boundary."""
     q = d.module.qual
@@ -111,7 +154,7 @@ def lazy_entry(ctx: Ctx) -> None:
         if _below_boundary(d):
             continue
         n_edges += 1
-        allowed = ALLOWED_EDGES.get(d.qual, {})
+        allowed = _effective_edges(repo).get(d.qual, {})
         sel = f"edge:{callee.qual}"
         if callee.qual not in allowed:
             ctx.ob(
@@ -162,7 +205,11 @@ def lazy_entry(ctx: Ctx) -> None:
             continue
         for e in eff.own[d.qual]:
             if e.kind in HEAVY:
-                ok = e.kind in ALLOWED_PRIMITIVE_OWNERS.get(d.qual, ())
+                # (a lambda / nested function of an allowed owner is part of that owner)
+                anc, ok = d, False
+                while anc is not None and not ok:
+                    ok = e.kind in ALLOWED_PRIMITIVE_OWNERS.get(anc.qual, ())
+                    anc = anc.parent if anc.parent is not None and anc.parent.is_func else None
                 if e.kind == STORE_DELETE:
                     continue  # CLEANUP-1 (C10) owns deletion sites
                 ctx.ob(
